@@ -102,6 +102,7 @@ def _verify_case(repo, reg, c, ci, case, canary):
             E.stmt_hooks = hooks
             E.raises_decl = c.raises
             E.bvw = c.bitvec
+            E.smt_logic = next((t_[6:] for t_ in c.tags if isinstance(t_, str) and t_.startswith("logic=")), None)
             E.nl_abstract = bool(getattr(c, "nl_abstract", False))
             E.merge_ifs = bool(getattr(c, "merge_ifs", False))
             outcome = _run_path(E, c, fnode, cls, params, canary)
